@@ -624,16 +624,24 @@ func (e *byzEngine) mutate(r *Rng, c Claim, L *Layout, pool []H, maxPos uint64) 
 			break
 		}
 		hv := th
+		withdraw := th // the proof hash that the new target makes unnecessary (sibling case)
 		switch r.Intn(3) {
 		case 1:
-			if ah, ok := L.Nodes[a]; ok {
+			if what == "ancestor" {
+				// the ancestor claimed with its sibling's hash, and the sibling's
+				// hash withdrawn from the proof: the computed ancestor and the
+				// claimed one then look like the two children of the next node up
+				if sh, ok := L.Nodes[node.Sib()]; ok {
+					hv, withdraw = sh, sh
+				}
+			} else if ah, ok := L.Nodes[a]; ok {
 				hv = ah
 			}
 		case 2:
 			hv = pool[r.Intn(len(pool))]
 		}
 		for j := range c.Proof {
-			if c.Proof[j] == th {
+			if c.Proof[j] == withdraw {
 				c.Proof = append(c.Proof[:j:j], c.Proof[j+1:]...)
 				break
 			}
@@ -729,6 +737,7 @@ func (e *byzEngine) evaluate(bs *byzState, c Claim, prog *byzProgress, stats *St
 		hashes := append([]H(nil), c.Hashes...)
 		proof := u.Proof{Targets: append([]uint64(nil), c.Targets...), Proof: append([]H(nil), c.Proof...)}
 		var call, recheck func() error
+		var rootsOf []func() []H
 		after := false
 		var before u.Stump
 		switch ver {
@@ -777,6 +786,7 @@ func (e *byzEngine) evaluate(bs *byzState, c Claim, prog *byzProgress, stats *St
 			}
 			cl := cloneMapPollard(src)
 			stats.OracleChecks["byz_remember_calls"]++
+			rootsOf = []func() []H{src.GetRoots, cl.GetRoots}
 			if ver == "VerifyPartialProof(remember)" {
 				call = func() error { return cl.VerifyPartialProof(proof.Targets, hashes, proof.Proof, true) }
 				recheck = func() error { return cl.VerifyPartialProof(proof.Targets, hashes, proof.Proof, false) }
@@ -801,6 +811,12 @@ func (e *byzEngine) evaluate(bs *byzState, c Claim, prog *byzProgress, stats *St
 		}
 		if err != nil {
 			stats.Faults["msg_corrupt_rejected"]++
+			if rootsOf != nil {
+				if a, b := rootsOf[0](), rootsOf[1](); !eqHashes(a, b) {
+					report(Violation{Property: "C03", Class: "roots-changed-by-rejected-call:" + ver, Detail: fmt.Sprintf("%s rejected the claim (targets %v, %d proof hashes) but the forest's roots changed: every later acceptance is judged against roots that no longer commit to the true forest [%s]", ver, c.Targets, len(c.Proof), c.Mut)}, c, ver)
+					continue
+				}
+			}
 			if recheck != nil {
 				// a rejected remembering call must leave nothing behind that makes
 				// the same claim acceptable afterwards
